@@ -54,6 +54,15 @@ Init == /\ patch \in {s \in SeqsUpTo(OpPool, MaxPatchLen) : s # <<>>}
         /\ built = IF route = "builder" THEN 0 ELSE Len(patch)
         /\ hist = <<>>
 
+\* random walks: TLC computes initial states once, so the random patch is chosen by the first step
+InitSim == patch = <<>> /\ route = "document" /\ built = 0 /\ hist = <<>>
+ChooseSim == /\ patch = <<>>
+             /\ \E n \in {RandomElement(1..MaxPatchLen)}, r \in {RandomElement(Routes)} :
+                  /\ patch' = [i \in 1..n |-> RandomElement(OpPool)]
+                  /\ route' = r
+                  /\ built' = IF r = "builder" THEN 0 ELSE n
+             /\ UNCHANGED hist
+
 AddOp == /\ Len(hist) < MaxActs
          /\ built < Len(patch)
          /\ built' = built + 1
@@ -66,7 +75,8 @@ AsDicts == /\ Len(hist) < MaxActs
            /\ hist' = Append(hist, [act |-> "asdicts", n |-> built, doc |-> Null, result |-> Null])
            /\ UNCHANGED <<patch, route, built>>
 Next == (\E d \in Docs : Apply(d)) \/ AsDicts \/ AddOp
-NextSim == \E c \in {RandomElement(1..5)} :
+NextSim == IF patch = <<>> THEN ChooseSim ELSE
+           \E c \in {RandomElement(1..5)} :
              IF c = 1 THEN AsDicts
              ELSE IF c = 2 /\ built < Len(patch) THEN AddOp
              ELSE \E d \in {RandomElement(Docs)} : Apply(d)
@@ -74,7 +84,7 @@ Spec == Init /\ [][Next]_vars
 
 \* ---- properties -------------------------------------------------------------
 \* only a builder call changes the patch: applying or printing it never does
-PatchNeverChanges == [][(built' # built \/ patch' # patch) => (patch' = patch /\ hist'[Len(hist')].act = "build")]_vars
+PatchNeverChanges == [][(patch # <<>> /\ (built' # built \/ patch' # patch)) => (patch' = patch /\ hist'[Len(hist')].act = "build")]_vars
 \* equal documents, equal results - whatever happened in between
 Repeatable == \A i, j \in 1..Len(hist) :
                 (hist[i].act = "apply" /\ hist[j].act = "apply" /\ hist[i].doc = hist[j].doc /\ hist[i].n = hist[j].n) => hist[i].result = hist[j].result
